@@ -130,7 +130,7 @@ func SetPool(p string) {
 }
 
 // HangGuard is the per-execution hang guard of free-mode runs.
-var HangGuard = 60 * time.Second
+var HangGuard = 10 * time.Second
 
 // LeakGrace is how long free-mode runs wait for engine goroutines to terminate.
 var LeakGrace = 10 * time.Second
@@ -658,6 +658,22 @@ func Features(c *Case) []string {
 		}
 	}
 	walk(expr, nil)
+	for _, d := range c.Data {
+		for _, p := range d.S {
+			v := float64(p.V)
+			switch {
+			case value.IsStaleNaN(v):
+				f["data:stale"] = true
+			case math.IsNaN(v):
+				f["data:nan"] = true
+			case math.IsInf(v, 0):
+				f["data:inf"] = true
+			}
+		}
+	}
+	if len(c.Data) == 0 {
+		f["data:empty"] = true
+	}
 	out := make([]string, 0, len(f))
 	for k := range f {
 		out = append(out, k)
